@@ -94,6 +94,12 @@ func ZZ_C17_E12() {
 	n.emptyBlock(0)
 	n.emptyBlock(0)
 	x := zzAddr(2) // an externally owned, funded account
+	if zzverif.Choose("callee.isPrecompile", 2) == 1 {
+		// ... or the address of a precompiled contract (0x..02, sha256): pre-warmed by
+		// the access-list preparation, no native account yet
+		x = make(types.Address, 20)
+		x[19] = 0x02
+	}
 	// block 3: deployments by A1
 	n.begin(0, nil, nil)
 	r2 := n.deploy(1, zzInitCode(2, x)) // pays x 1 unit, then reverts
